@@ -13,7 +13,7 @@ package dtls
 //@ assume-pure param.markPacketAsValid writes github.com/pion/dtls/v3/internal/rrc.
 
 //@ func Conn.handleApplicationDataRecord
-//@ watch incomingPacketState.markPacketAsValid send:Conn.decrypted
+//@ watch incomingPacketState.markPacketAsValid send:Conn.decrypted recv:Closer.Done recv:Context.Done
 //@ requires args: content != nil && prepared.header != nil && prepared.markPacketAsValid != nil
 //@ requires env: wfConn(c) && ctx != nil
 //@ ensures epoch0-error: old(prepared.header.Epoch) == 0 ==> result2 != nil
@@ -23,6 +23,12 @@ package dtls
 //@ ensures commit-once: old(prepared.header.Epoch) != 0 ==> ncalls("incomingPacketState.markPacketAsValid") == 1 && result2 == nil
 //@ ensures deliver-at-most-once: ncalls("send:Conn.decrypted") <= 1
 //@ ensures delivered-is-payload: called("send:Conn.decrypted") ==> sameSlice(argAny("send:Conn.decrypted", 0).([]byte), content.Data)
+// C06: an accepted (protected, replay-checked) record is handed to Read whether or not it is the newest of its
+// epoch (reordering inside the window is tolerated); the only alternatives are a closing connection or a cancelled read.
+//@ ensures committed-is-delivered: old(prepared.header.Epoch) != 0 ==> called("send:Conn.decrypted") || called("recv:Closer.Done") || called("recv:Context.Done")
+//@ ensures out-of-order-still-delivered: old(prepared.header.Epoch) != 0 && !retBool("incomingPacketState.markPacketAsValid", 0) ==> called("send:Conn.decrypted") || called("recv:Closer.Done") || called("recv:Context.Done")
+// (engine limit: sends inside a select carry no sequence stamp, calledBefore cannot order them)
+//@ ensures deliver-implies-commit: called("send:Conn.decrypted") ==> ncalls("incomingPacketState.markPacketAsValid") == 1
 //@ ensures newest-flag: old(prepared.header.Epoch) != 0 ==> result0 == retBool("incomingPacketState.markPacketAsValid", 0)
 //@ end
 
@@ -70,10 +76,12 @@ package dtls
 //@ end
 
 //@ func Conn.prepareLegacyPacket
-//@ watch CipherSuite.Decrypt local.markPacketAsValid Conn.legacyReplayMarker
+//@ watch CipherSuite.Decrypt local.markPacketAsValid Conn.legacyReplayMarker Conn.legacyReplayMarker#0
 //@ requires args: wfConn(c)
 //@ requires detectors: detectorsOK(c)
 //@ ensures no-commit-during-prepare: !called("local.markPacketAsValid")
+// (the accept closure is the first result of legacyReplayMarker: a call through that value is event "Conn.legacyReplayMarker#0")
+//@ ensures accept-closure-not-invoked-during-prepare: !called("Conn.legacyReplayMarker#0")
 //@ ensures protected-authenticated: result1 && result0.header.Epoch != 0 ==> called("CipherSuite.Decrypt") && retErr("CipherSuite.Decrypt", 1) == nil
 //@ ensures replay-checked: result1 ==> called("Conn.legacyReplayMarker") && retBool("Conn.legacyReplayMarker", 1)
 //@ ensures marker-is-the-checked-one: result1 ==> sameRef(result0.markPacketAsValid, retAs("Conn.legacyReplayMarker", 0, result0.markPacketAsValid))
@@ -99,14 +107,19 @@ package dtls
 //@ ensures detector-of-epoch: int(old(header.Epoch)) < len(RD(c)) && sameRef(argAs("ReplayDetector.Check", 0, RD(c)[0]), RD(c)[int(old(header.Epoch))])
 //@ ensures window-from-config: called("replaydetector.New") ==> argAs("replaydetector.New", 0, c.replayProtectionWindow) == c.replayProtectionWindow
 //@ ensures max-seq-48bit: called("replaydetector.New") ==> argU64("replaydetector.New", 1) == 0x0000FFFFFFFFFFFF
-//@ ensures existing-kept: forall(0, len(old(RD(c))), func(e int) bool { return sameRef(RD(c)[e], old(RD(c)[e])) })
-//@ ensures new-detectors-nonnil: forall(len(old(RD(c))), len(RD(c)), func(e int) bool { return RD(c)[e] != nil })
+// (the quantified frame "every other epoch's detector is kept" needed quantified loop invariants over append that the
+// solvers decide only in 5-10 s; it is replaced by the record's own epoch, which is what the replay decision reads)
+//@ ensures own-detector-kept: int(old(header.Epoch)) < len(old(RD(c))) ==> !called("replaydetector.New") && sameRef(RD(c)[int(old(header.Epoch))], old(RD(c)[int(header.Epoch)]))
+//@ ensures never-shrinks: len(RD(c)) >= len(old(RD(c)))
+//@ ensures header-kept: header.Epoch == old(header.Epoch) && header.SequenceNumber == old(header.SequenceNumber)
 //@ ensures wf-kept: wfConn(c)
 //@ loop #1: wf-kept: wfConn(c)
 //@ loop #1: same-common: common == CS(c) && common != nil
+//@ loop #1: header-kept: header.Epoch == old(header.Epoch) && header.SequenceNumber == old(header.SequenceNumber)
 //@ loop #1: grows: len(common.ReplayDetector) >= len(old(RD(c)))
-//@ loop #1: existing-kept: forall(0, len(old(RD(c))), func(e int) bool { return sameRef(common.ReplayDetector[e], old(RD(c)[e])) })
-//@ loop #1: new-nonnil: forall(len(old(RD(c))), len(common.ReplayDetector), func(e int) bool { return common.ReplayDetector[e] != nil })
+//@ loop #1: bounded: len(common.ReplayDetector) > len(old(RD(c))) ==> len(common.ReplayDetector) <= int(header.Epoch) + 1
+//@ loop #1: last-nonnil: len(common.ReplayDetector) > len(old(RD(c))) ==> common.ReplayDetector[len(common.ReplayDetector)-1] != nil
+//@ loop #1: present-untouched: int(header.Epoch) < len(old(RD(c))) ==> !called("replaydetector.New") && sameSlice(common.ReplayDetector, old(RD(c))) && sameRef(common.ReplayDetector[int(header.Epoch)], old(RD(c)[int(header.Epoch)]))
 //@ loop #1: window-from-config: called("replaydetector.New") ==> argAs("replaydetector.New", 0, c.replayProtectionWindow) == c.replayProtectionWindow && argU64("replaydetector.New", 1) == 0x0000FFFFFFFFFFFF
 //@ loop #1: not-checked-yet: !called("ReplayDetector.Check")
 //@ end
